@@ -51,14 +51,56 @@ def arg_obj(a, shared=None):
 #   copy / deepcopy / pickle : a copy of the built object (the original is kept alive next to it)
 #   shared    : within one schema, equal conditions / paths are ONE object used by several rules
 OBJ_MODES = ("looked-at", "copy", "deepcopy", "pickle", "shared")
-_STATE = {"mode": None, "depth": 0, "keep": [], "applied": 0}
+_STATE = {"mode": None, "depth": 0, "keep": [], "applied": 0, "memo": None}
 
 
 def begin_case(mode):
-    _STATE.update(mode=mode, depth=0, keep=[], applied=0)
+    _STATE.update(mode=mode, depth=0, keep=[], applied=0, memo=None)
 
 
-def _look(obj):
+def _look(obj, _depth=0):
+    """everything a caller may have done with an object before the observed call: printed, compared, hashed, measured,
+    serialised, drawn, derived from (modifier paths, combinations, compositions, copies) - none of which may change it"""
+    import copy
+    derive = (lambda o: (o.length(), o.first()), lambda o: (o.dtype(), o.last()), lambda o: o.map_keys(), lambda o: o.all(), lambda o: o.single(),
+              lambda o: (o & type(o)(), o | o, o ^ o) if False else None,
+              lambda o: (o / o), lambda o: ("zz" / o), lambda o: o[0:1], lambda o: o[0],
+              lambda o: (copy.copy(o), copy.deepcopy(o)), lambda o: o.to_spec(allow_primitive=False),
+              lambda o: o.test(1), lambda o: o.get_all_failures())
+    if _depth < 3:
+        for attr in ("path", "condition", "rules", "parts", "children"):
+            sub = getattr(obj, attr, None)
+            if sub is None or callable(sub):
+                continue
+            try:
+                for x in (sub if isinstance(sub, (list, tuple)) else [sub]):
+                    _look(x, _depth + 1)
+            except Exception:
+                pass
+        try:
+            call_ = getattr(obj, "callable", None)
+            for a in list(getattr(call_, "args", ()) or ()) + list((getattr(call_, "kwargs", None) or {}).values()):
+                for x in (a if isinstance(a, list) else list(a.values()) if isinstance(a, dict) else [a]):
+                    if type(x).__name__ == "DataPath":
+                        _look(x, _depth + 1)
+        except Exception:
+            pass
+    try:
+        import valida.conditions as _C
+        if isinstance(obj, _C.ConditionLike):
+            other = _C.Value.truthy()
+            for comb in (lambda: obj & other, lambda: other | obj, lambda: obj ^ obj, lambda: (obj & other) & other):
+                try:
+                    comb()  # a combination that uses obj as an operand, built and dropped
+                except Exception:
+                    pass
+    except Exception:
+        pass
+    for f in derive:
+        try:
+            f(obj)
+        except Exception:
+            pass
     for f in (repr, str, lambda o: o == o, lambda o: o != o, hash, len, lambda o: o.to_json_like(), lambda o: o.to_spec(),
               lambda o: o.to_part_specs(), lambda o: list(o), lambda o: o.to_tree(), lambda o: bool(o),
               lambda o: (o.is_concrete, o.simplify()), lambda o: o.flatten(), lambda o: (o.is_null, o.is_value_like)):
@@ -138,6 +180,16 @@ def _comp_obj(c):
 
 @_outer
 def part_obj(part):
+    memo = _STATE["memo"]
+    if memo is not None:
+        key = ("part", repr(part))
+        if key not in memo:
+            memo[key] = _part_obj(part)
+        return memo[key]  # shared mode: equal parts of one schema are ONE object (also twice in one path)
+    return _part_obj(part)
+
+
+def _part_obj(part):
     _, _, DP = V()
     p = part["p"]
     if p == "prim":
@@ -164,7 +216,16 @@ def apply_mods(obj, pterm):
 @_outer
 def path_obj(pterm, **kw):
     _, _, DP = V()
-    obj = DP.DataPath(*[part_obj(p) for p in pterm["parts"]], **kw)
+    memo = _STATE["memo"]
+    key = ("base-path", repr(pterm["parts"]))
+    if memo is not None and not kw and key in memo:
+        obj = memo[key]  # shared mode: ONE base path object per distinct list of parts (modifier paths derive from it)
+    else:
+        obj = DP.DataPath(*[part_obj(p) for p in pterm["parts"]], **kw)
+        if memo is not None and not kw:
+            memo[key] = obj
+    if _STATE["mode"] == "looked-at" and (pterm.get("datum") or pterm.get("multi")):
+        _look(obj)  # the base has been used / serialised before the modifier path is derived from it
     return apply_mods(obj, pterm)
 
 
@@ -216,7 +277,11 @@ def schema_obj(rules):
     memo = {} if _STATE["mode"] == "shared" else None
     if memo is not None:
         _STATE["applied"] += 1
-    return valida.Schema([rule_obj(r, _memo=memo) for r in rules])
+    _STATE["memo"] = memo
+    try:
+        return valida.Schema([rule_obj(r, _memo=memo) for r in rules])
+    finally:
+        _STATE["memo"] = None
 
 
 # ---------------------------------------------------------------------------- specs ---
